@@ -39,6 +39,10 @@ func c18Name(c *core.Ctx, bare bool) string {
 		// Single-label names are fine after an address.
 		return parts[0]
 	}
+	if c.Rng.Intn(15) == 0 {
+		// Names are taken as written, whatever their letter case.
+		parts[0] = strings.ToUpper(parts[0][:1]) + parts[0][1:]
+	}
 
 	return strings.Join(parts, ".") + "." + c18TLDs[c.Rng.Intn(len(c18TLDs))]
 }
